@@ -4,7 +4,7 @@
    the bempp-cl sources on every run. *)
 From Coq Require Import Reals QArith List Arith.
 From BV Require Import Bary.Syms Bary.Model Bary.RwgModel Bary.Tables Bary.RwgReal Bary.DualModel Bary.DualProofs.
-From BV Require Import Quad.Rules Quad.Exactness Bary.Mass Bary.BcModel Bary.BcProofs.
+From BV Require Import Quad.Rules Quad.Exactness Bary.Mass Bary.BcModel Bary.BcProofs Bary.DualNoOverlap.
 From BVgen Require Import BaryTables.
 Import ListNotations.
 Open Scope Q_scope.
@@ -208,6 +208,21 @@ Theorem C10_dual_nodal_values_partial :
       dual1_entry_kind truncate elements element_edges edge_neighbors vertex_neighbors dp0_support d E t.
 Proof. exact dual1_entries_sound. Qed.
 Print Assumptions C10_dual_nodal_values_partial.
+
+(* DUAL1, no overlap: on every grid whose support elements have three distinct vertices and edges and whose neighbour
+   lists are repetition-free, no two entries of the map address the same (barycentric dof, coarse dof): the coo->csr
+   summation never adds two entries, so with C10_dual_nodal_values_partial every stored matrix entry IS a documented
+   nodal value (1, 1/2, 1/valence). *)
+Theorem C10_dual1_no_overlap :
+  forall (truncate : bool) (elements element_edges edge_neighbors vertex_neighbors : list (list nat)) (dp0_support : list nat),
+    grid_wf elements element_edges edge_neighbors vertex_neighbors dp0_support ->
+    NoDup (map key (dual1_entries truncate elements element_edges edge_neighbors vertex_neighbors dp0_support)).
+Proof.
+  exact (fun truncate elements element_edges edge_neighbors vertex_neighbors dp0_support =>
+           dual1_no_overlap truncate elements element_edges edge_neighbors vertex_neighbors dp0_support
+                            (eq_refl : dual1_centre_status = true)).
+Qed.
+Print Assumptions C10_dual1_no_overlap.
 
 (* the "1 at the barycentre" list of dual1 names exactly the six dofs located at the barycentre *)
 Theorem C10_dual1_centre : same_set dual1_centre_dofs (all_dofs_of BCentre) = true.
